@@ -84,6 +84,10 @@ func (r evilRing) LookupBoxSecretKey(kids [][]byte) (int, saltpack.BoxSecretKey)
 	case 6:
 		return len(kids) - 1, k
 	default:
+		// one past the end, or far beyond (the boundary of every bounds check)
+		if r.mode/8%2 == 0 {
+			return len(kids), k
+		}
 		return 1 << 30, k
 	}
 }
